@@ -1,17 +1,25 @@
 #!/usr/bin/env python3
 """dev tool: run the registered quick checks against every seeded change (apply to /repo, run, revert)
 and write the catch matrix to seeded/MATRIX.json.  Never leaves /repo modified."""
-import json, os, subprocess, sys
+import json, os, shutil, subprocess, sys, tempfile
 VERIF = os.path.dirname(os.path.dirname(os.path.abspath(__file__)))
 ids = sorted(d for d in os.listdir(os.path.join(VERIF, "seeded")) if os.path.isdir(os.path.join(VERIF, "seeded", d)))
 extra = {"C02": ["C03"], "C03": ["C02"], "C04": ["C13", "C06"], "C12": ["C13"], "C14": ["C09"], "C09": ["C14"],
          "C07": ["C15"], "C15": ["C07"], "C13": ["C04", "C12"], "C17": ["C05"], "C05": ["C17"]}
 res = {}
+if os.path.exists(os.path.join(VERIF, "seeded", "MATRIX.json")) and sys.argv[1:]:
+    res = json.load(open(os.path.join(VERIF, "seeded", "MATRIX.json")))
 sel = sys.argv[1:] or ids
+# the evidence files must describe the unchanged tree: keep them aside while seeded changes are applied
+_keep = tempfile.mkdtemp(prefix="evid-", dir="/var/tmp")
+for f in os.listdir(os.path.join(VERIF, "evidence")):
+    if f.endswith(".json"):
+        shutil.copy(os.path.join(VERIF, "evidence", f), _keep)
 for sid in sel:
     patch = os.path.join(VERIF, "seeded", sid, "patch.diff")
     meta = json.load(open(os.path.join(VERIF, "seeded", sid, "meta.json")))
     prop = meta["property"]
+    seed = os.environ.get("VERIF_SEED", "1")
     r = subprocess.run(["git", "-C", "/repo", "apply", patch], capture_output=True, text=True)
     if r.returncode != 0:
         res[sid] = {"apply": "FAILED " + r.stderr[:200]}
@@ -31,3 +39,6 @@ for sid in sel:
         subprocess.run(["git", "-C", "/repo", "checkout", "--", "."])
     print(sid, res[sid], flush=True)
 json.dump(res, open(os.path.join(VERIF, "seeded", "MATRIX.json"), "w"), indent=1)
+for f in os.listdir(_keep):
+    shutil.copy(os.path.join(_keep, f), os.path.join(VERIF, "evidence", f))
+shutil.rmtree(_keep, ignore_errors=True)
